@@ -3716,6 +3716,76 @@ static Value eval_call(ASTNode *node, Environment *env) {
     return return_value;
 }
 
+/* Evaluate a match.  In expression position an arm's value is the arm
+ * expression (for a block arm: the value of its `return`).  In statement
+ * position the arm is a statement: `return`, `break` and `continue` inside it
+ * leave the enclosing function or loop, like in an if/else body. */
+static Value eval_match(ASTNode *expr, Environment *env, bool as_statement) {
+    /* Evaluate match expression: match status { Ok(x) => 1, Error(e) => 0 } */
+    Value match_val = eval_expression(expr->as.match_expr.expr, env);
+    
+    if (match_val.type != VAL_UNION) {
+        fprintf(stderr, "Error: Match expression requires a union value (got type %d)\n", match_val.type);
+        return create_void();
+    }
+    
+    UnionValue *uval = match_val.as.union_val;
+    
+    /* Find matching arm by comparing variant names */
+    for (int i = 0; i < expr->as.match_expr.arm_count; i++) {
+        const char *pattern_variant = expr->as.match_expr.pattern_variants[i];
+        
+        if (strcmp(uval->variant_name, pattern_variant) == 0) {
+            /* This arm matches! */
+            const char *binding = expr->as.match_expr.pattern_bindings[i];
+            
+            /* Save environment state for scope */
+            int saved_symbol_count = env->symbol_count;
+            
+            /* Bind the pattern variable to a struct value representing the variant's fields
+             * This allows field access like binding.field_name in the match arm body
+             */
+            Value binding_val;
+            if (uval->field_count > 0) {
+                /* Create a struct-like value with the variant's fields
+                 * We need to duplicate the field names and values for the struct
+                 */
+                char **field_names_copy = malloc(sizeof(char*) * uval->field_count);
+                Value *field_values_copy = malloc(sizeof(Value) * uval->field_count);
+                
+                for (int j = 0; j < uval->field_count; j++) {
+                    field_names_copy[j] = uval->field_names[j];  /* Share string pointers */
+                    field_values_copy[j] = uval->field_values[j];  /* Copy values */
+                }
+                
+                binding_val = create_struct(uval->union_name, 
+                                           field_names_copy, 
+                                           field_values_copy, 
+                                           uval->field_count);
+            } else {
+                /* Variant has no fields - create a placeholder */
+                binding_val = create_void();
+            }
+            env_define_var(env, binding, TYPE_STRUCT, false, binding_val);
+            
+            /* Evaluate arm body */
+            Value result = as_statement
+                ? eval_statement(expr->as.match_expr.arm_bodies[i], env)
+                : eval_expression(expr->as.match_expr.arm_bodies[i], env);
+            
+            /* Restore environment */
+            /* Note: Symbols added here will be leaked, but interpreter is short-lived */
+            env->symbol_count = saved_symbol_count;
+            
+            return result;
+        }
+    }
+    
+    /* No matching arm found - this should be caught by typechecker */
+    fprintf(stderr, "Error: No matching arm for variant '%s'\n", uval->variant_name);
+    return create_void();
+}
+
 /* Evaluate expression */
 static Value eval_expression(ASTNode *expr, Environment *env) {
     if (!expr) return create_void();
@@ -4071,69 +4141,8 @@ static Value eval_expression(ASTNode *expr, Environment *env) {
             return result;
         }
 
-        case AST_MATCH: {
-            /* Evaluate match expression: match status { Ok(x) => 1, Error(e) => 0 } */
-            Value match_val = eval_expression(expr->as.match_expr.expr, env);
-            
-            if (match_val.type != VAL_UNION) {
-                fprintf(stderr, "Error: Match expression requires a union value (got type %d)\n", match_val.type);
-                return create_void();
-            }
-            
-            UnionValue *uval = match_val.as.union_val;
-            
-            /* Find matching arm by comparing variant names */
-            for (int i = 0; i < expr->as.match_expr.arm_count; i++) {
-                const char *pattern_variant = expr->as.match_expr.pattern_variants[i];
-                
-                if (strcmp(uval->variant_name, pattern_variant) == 0) {
-                    /* This arm matches! */
-                    const char *binding = expr->as.match_expr.pattern_bindings[i];
-                    
-                    /* Save environment state for scope */
-                    int saved_symbol_count = env->symbol_count;
-                    
-                    /* Bind the pattern variable to a struct value representing the variant's fields
-                     * This allows field access like binding.field_name in the match arm body
-                     */
-                    Value binding_val;
-                    if (uval->field_count > 0) {
-                        /* Create a struct-like value with the variant's fields
-                         * We need to duplicate the field names and values for the struct
-                         */
-                        char **field_names_copy = malloc(sizeof(char*) * uval->field_count);
-                        Value *field_values_copy = malloc(sizeof(Value) * uval->field_count);
-                        
-                        for (int j = 0; j < uval->field_count; j++) {
-                            field_names_copy[j] = uval->field_names[j];  /* Share string pointers */
-                            field_values_copy[j] = uval->field_values[j];  /* Copy values */
-                        }
-                        
-                        binding_val = create_struct(uval->union_name, 
-                                                   field_names_copy, 
-                                                   field_values_copy, 
-                                                   uval->field_count);
-                    } else {
-                        /* Variant has no fields - create a placeholder */
-                        binding_val = create_void();
-                    }
-                    env_define_var(env, binding, TYPE_STRUCT, false, binding_val);
-                    
-                    /* Evaluate arm body */
-                    Value result = eval_expression(expr->as.match_expr.arm_bodies[i], env);
-                    
-                    /* Restore environment */
-                    /* Note: Symbols added here will be leaked, but interpreter is short-lived */
-                    env->symbol_count = saved_symbol_count;
-                    
-                    return result;
-                }
-            }
-            
-            /* No matching arm found - this should be caught by typechecker */
-            fprintf(stderr, "Error: No matching arm for variant '%s'\n", uval->variant_name);
-            return create_void();
-        }
+        case AST_MATCH:
+            return eval_match(expr, env, false);
 
         case AST_BLOCK: {
             /* Blocks can be used as expressions in match arms
@@ -4644,6 +4653,10 @@ static Value eval_statement(ASTNode *stmt, Environment *env) {
             return create_void();
         }
         
+        case AST_MATCH:
+            /* match in statement position */
+            return eval_match(stmt, env, true);
+
         case AST_FUNCTION:
         case AST_SHADOW:
             /* Function and shadow definitions are handled at program level */
